@@ -13,5 +13,8 @@ def run(ctx):
                budget=ctx.pick(400000, 4000000))
     # T: long random histories across the 16/32/64 growth steps
     drive_tv(ctx, "deque", "Trace_Deque", "tv.cfg", "deque", runs=ctx.pick(24, 240), ops=ctx.pick(500, 1000))
-    ctx.assumptions += ["'not retained' is observed as: every raw slot outside the live range holds the zero value (read-only hook VerifSlots)",
+    # the collector's own verdict on "popped elements are not retained": elements are pointers with finalizers
+    from common import gc_tv
+    gc_tv(ctx, "deque", "deque", ctx.pick(9, 60), ctx.pick(400, 1500))
+    ctx.assumptions += ["'not retained' is observed as: every raw slot outside the live range holds the zero value (read-only hook VerifSlots), and directly through finalizers of the stored elements",
                         "implementation-level state (capacity/front/back) is compared for model drift only, never for a verdict"]
